@@ -97,3 +97,11 @@ func init() {
 		ForceInline: []string{"(*Connect).fill"},
 		Note: "information flow as proof obligations: the bytes of the user name and of the password are marked secret in a ghost taint map that moves with bulk copies; String and dump of CONNECT (with the nested will and the user properties verified in place) are proved never to read a secret byte directly (so no value or branch can depend on one) and never to hand a secret byte to fmt or to the writer - lengths and emptiness remain observable. Two packets that differ only in equally long credential bytes therefore produce the same calls with the same arguments"}
 }
+
+func init() {
+	roots := append(methodsOf(packetTypes, "WriteTo"), methodsOf(packetTypes, "fill")...)
+	roots = append(roots, methodsOf(packetTypes, "String")...)
+	roots = append(roots, "(*Undefined).WriteTo", "(*UserProperties).properties")
+	propSpecs["C10"] = &PropSpec{ID: "C10", Roots: roots,
+		Note: "for each of the 15 packet types: fill returns i + 1 + width(remaining length) + remaining length where the remaining length is the closed-form size of variable header and payload (width algebra; list sections via uninterpreted summation functions unfolded by the loop invariants), independent of the buffer argument; WriteTo performs exactly one Write of a buffer of exactly that length and returns that call's (n, err); String prints the same size term; Undefined.WriteTo performs no Write and returns an error"}
+}
